@@ -278,6 +278,7 @@ func (w *World) CreateSub(sp SubSpec) *Sub {
 		s.Cfg.TTL = defaultTTL
 	}
 	if dlt != nil {
+		s.DLEver = map[*Topic]bool{dlt: true}
 		s.Cfg.DLTopic = dlt
 		s.Cfg.MaxAttempts = int(sp.MaxAttempts)
 		if s.Cfg.MaxAttempts == 0 {
@@ -288,7 +289,7 @@ func (w *World) CreateSub(sp SubSpec) *Sub {
 		}
 	}
 	for _, x := range w.AllSubs {
-		if x.Cfg.DLTopic == t {
+		if x.everDL(t) {
 			s.IsDLTarget = true
 		}
 	}
@@ -384,6 +385,54 @@ func (w *World) UpdateSub(s *Sub, what string, r *rand.Rand) {
 	if what == "expiration_policy" {
 		s.Activity = Iv{lo, hi}
 	}
+}
+
+// UpdateDeadLetter changes, sets or clears the dead-letter policy of a live
+// subscription. topic "" clears it; a topic that does not exist must be refused
+// and leave the policy as it was.
+func (w *World) UpdateDeadLetter(s *Sub, topic string, maxAttempts int32) {
+	w.slot()
+	req := &pubsubpb.UpdateSubscriptionRequest{Subscription: &pubsubpb.Subscription{Name: s.Name}, UpdateMask: &fieldmaskpb.FieldMask{Paths: []string{"dead_letter_policy"}}}
+	if topic != "" {
+		req.Subscription.DeadLetterPolicy = &pubsubpb.DeadLetterPolicy{DeadLetterTopic: topic, MaxDeliveryAttempts: maxAttempts}
+	}
+	_, err := w.E.Sub.UpdateSubscription(w.Ctx, req)
+	w.rec("update-dl", fmt.Sprintf("%s -> %s/%d", s.Name, topic, maxAttempts), code(err).String())
+	if !s.Live {
+		w.expectCode("C12", "UpdateSubscription(dead)", err, codes.NotFound)
+		return
+	}
+	if s.Wild {
+		return
+	}
+	if topic == "" {
+		if w.expectCode("C17", "UpdateSubscription(clear dead_letter_policy)", err, codes.OK) {
+			s.Cfg.DLTopic, s.Cfg.MaxAttempts = nil, 0
+			w.stat("dead_letter_policy_cleared", 1)
+		}
+		return
+	}
+	dlt, ok := w.Topics[topic]
+	if !ok {
+		w.expectCode("C12", "UpdateSubscription(dead_letter_policy: no such topic)", err, codes.NotFound)
+		return
+	}
+	if !w.expectCode("C17", "UpdateSubscription(dead_letter_policy)", err, codes.OK) {
+		return
+	}
+	if s.DLEver == nil {
+		s.DLEver = map[*Topic]bool{}
+	}
+	s.DLEver[dlt] = true
+	s.Cfg.DLTopic = dlt
+	s.Cfg.MaxAttempts = int(maxAttempts)
+	if s.Cfg.MaxAttempts == 0 {
+		s.Cfg.MaxAttempts = 5
+	}
+	for _, x := range dlt.Subs {
+		x.IsDLTarget = true
+	}
+	w.stat("dead_letter_policy_set", 1)
 }
 
 // SetDelay sets the injected delivery delay through the real controller.
@@ -1786,7 +1835,7 @@ func (w *World) delsOfMsg(m *Msg) string {
 // isDLTarget: some subscription (any generation) dead-letters into s's topic.
 func (w *World) isDLTarget(s *Sub) bool {
 	for _, x := range w.AllSubs {
-		if x.Cfg.DLTopic == s.Topic {
+		if x.everDL(s.Topic) {
 			return true
 		}
 	}
@@ -1797,7 +1846,7 @@ func (w *World) isDLTarget(s *Sub) bool {
 // dead-letters into s's topic, so a forwarded copy may legitimately appear on s.
 func (w *World) wildSource(s *Sub, m *Msg) bool {
 	for _, x := range w.AllSubs {
-		if x.Cfg.DLTopic != s.Topic {
+		if !x.everDL(s.Topic) {
 			continue
 		}
 		if x.Wild {
